@@ -204,17 +204,29 @@ def cart_coords(grid):
     return np.array([np.asarray(g.x, dtype=LD), np.asarray(g.y, dtype=LD)])
 
 
-def direct_sum(pupil_grid, focal_grid, E, lam, f):
-    """1/(i lam f) sum_u E(u) w(u) exp(-2 pi i x.u/(lam f)) for every focal point x, in long double.
-    E has shape (..., Npupil)."""
+def kernel(pupil_grid, focal_grid, lam, f, cache=None):
+    """exp(-2 pi i x.u/(lam f)) for all (focal point x, pupil point u), long double, phases reduced in turns."""
+    key = (lam, f)
+    if cache is not None and key in cache:
+        return cache[key]
     xs = cart_coords(focal_grid)                    # (2, Nf)
     us = cart_coords(pupil_grid)                    # (2, Np)
-    w = np.asarray(pupil_grid.weights, dtype=LD) * np.ones(pupil_grid.size, dtype=LD)
     lf = LD(lam) * LD(f)
     t = -(xs.T @ us) / lf                           # turns, (Nf, Np)
     t = t - np.floor(t)
     ph = TWO_PI_LD * t
     K = (np.cos(ph) + 1j * np.sin(ph)).astype(np.clongdouble)
+    if cache is not None:
+        cache[key] = K
+    return K
+
+
+def direct_sum(pupil_grid, focal_grid, E, lam, f, cache=None):
+    """1/(i lam f) sum_u E(u) w(u) exp(-2 pi i x.u/(lam f)) for every focal point x, in long double.
+    E has shape (..., Npupil)."""
+    w = np.asarray(pupil_grid.weights, dtype=LD) * np.ones(pupil_grid.size, dtype=LD)
+    lf = LD(lam) * LD(f)
+    K = kernel(pupil_grid, focal_grid, lam, f, cache)
     Ew = (np.asarray(E, dtype=np.clongdouble) * w).reshape(-1, pupil_grid.size)
     out = (K @ Ew.T).T / (1j * lf)                  # (ntensor, Nf)
     return out
@@ -489,6 +501,207 @@ def compare_model(ctx, case, obs, plan, answers):
                                                       'impl': str(got), 'model': str(want)})
 
 
+
+# ---------------------------------------------------------------------------------------------
+# one propagator object used repeatedly (forward / backward / forward, alternating precisions, several
+# wavelengths, focal_length re-assigned between calls): every result is still the Fourier integral for the
+# *current* parameters
+
+TOL64 = 2e-4
+
+
+def adjoint_sum(pupil_grid, focal_grid, E, lam, f, cache=None):
+    """backward: i/(lam f) sum_x E(x) w(x) exp(+2 pi i x.u/(lam f)) at every pupil point u (long double)."""
+    w = np.asarray(focal_grid.weights, dtype=LD) * np.ones(focal_grid.size, dtype=LD)
+    lf = LD(lam) * LD(f)
+    K = np.conj(kernel(pupil_grid, focal_grid, lam, f, cache)).T
+    Ew = (np.asarray(E, dtype=np.clongdouble) * w).reshape(-1, focal_grid.size)
+    return (K @ Ew.T).T * 1j / lf
+
+
+def _spec(rng):
+    if rng.random() < 0.5:
+        return {'kind': 'const', 'a': _dy(rng, 1 / 4, 4, 2)}
+    return {'kind': 'callable', 'a': _dy(rng, 1 / 4, 2, 2), 'b': _dy(rng, 1 / 4, 2, 2)}
+
+
+def gen_session(rng, big=False):
+    r = rng.random()
+    if r < 0.4:
+        # cropped FFT conjugates with more focal than pupil pixels, large enough for the FFT to be selected
+        nx = int(rng.integers(8, 13 if not big else 19))
+        ny = nx if rng.random() < 0.6 else int(rng.integers(8, 13 if not big else 19))
+        q = int(rng.integers(3, 5))
+        dx = _dy(rng, 1 / 16, 1 / 4, 5)
+        pupil = {'delta': [dx, dx], 'dims': [nx, ny], 'zero': [-dx * (nx - 1) / 2, -dx * (ny - 1) / 2]}
+        lam0 = _dy(rng, 1 / 4, 2, 2)
+        f = _spec(rng)
+        f0 = f_value(f, lam0)
+        M = [q * nx, q * ny]
+        crop = [int(rng.integers(0, M[0] // 3)), int(rng.integers(0, M[1] // 3))]
+        if rng.random() < 0.8 and crop == [0, 0]:
+            crop = [1, 2]
+        focal = {'kind': 'conj', 'M': M, 'f': f0, 'lam': lam0, 'crop': crop, 'shift': [0, 0]}
+        lams = [lam0] if rng.random() < 0.6 else [lam0, _dy(rng, 1 / 4, 2, 2)]
+        wfk = ['scalar', 'scalar', 'jones'][int(rng.integers(0, 3))]
+        case = {'pupil': pupil, 'lams': sorted(set(lams)), 'f': f, 'focal': focal, 'wf': wfk, 'stokes': None,
+                'fseed': int(rng.integers(0, 2 ** 31))}
+    else:
+        case = gen_case(rng)
+    lams = case['lams']
+    ops = []
+    n = int(rng.integers(3, 9))
+    style = ['fbf', 'setter', 'precision', 'mixed'][int(rng.integers(0, 4))]
+    for i in range(n):
+        lam = lams[int(rng.integers(0, len(lams)))]
+        dt = 'c128'
+        if style in ('precision', 'mixed') and rng.random() < 0.5:
+            dt = 'c64'
+        if style == 'fbf':
+            kind = ['fwd', 'bwd', 'fwd', 'fwd', 'bwd'][i % 5]
+        else:
+            kind = 'fwd' if rng.random() < 0.65 else 'bwd'
+        if style in ('setter', 'mixed') and i > 0 and rng.random() < 0.45:
+            ops.append({'op': 'setf', 'f': _spec(rng)})
+        ops.append({'op': kind, 'lam': lam, 'dtype': dt, 'salt': i})
+    # always end with a double-precision forward at the first wavelength
+    ops.append({'op': 'fwd', 'lam': lams[0], 'dtype': 'c128', 'salt': 99})
+    return {'case': case, 'ops': ops, 'style': style}
+
+
+def directed_sessions():
+    out = []
+    for nx, ny, q, crop in ((16, 16, 4, [8, 8]), (12, 9, 3, [6, 1]), (10, 10, 4, [1, 1])):
+        dx = 1 / 16
+        pupil = {'delta': [dx, dx], 'dims': [nx, ny], 'zero': [-dx * (nx - 1) / 2, -dx * (ny - 1) / 2]}
+        focal = {'kind': 'conj', 'M': [q * nx, q * ny], 'f': 2.0, 'lam': 0.5, 'crop': crop, 'shift': [0, 0]}
+        case = {'pupil': pupil, 'lams': [0.5], 'f': {'kind': 'const', 'a': 2.0}, 'focal': focal, 'wf': 'scalar', 'stokes': None, 'fseed': 11}
+        out.append({'case': case, 'style': 'fbf', 'ops': [
+            {'op': 'fwd', 'lam': 0.5, 'dtype': 'c128', 'salt': 0}, {'op': 'bwd', 'lam': 0.5, 'dtype': 'c128', 'salt': 1},
+            {'op': 'fwd', 'lam': 0.5, 'dtype': 'c128', 'salt': 2}, {'op': 'fwd', 'lam': 0.5, 'dtype': 'c128', 'salt': 3}]})
+        out.append({'case': dict(case, f={'kind': 'const', 'a': 2.0}), 'style': 'setter', 'ops': [
+            {'op': 'fwd', 'lam': 0.5, 'dtype': 'c128', 'salt': 0}, {'op': 'setf', 'f': {'kind': 'const', 'a': 3.0}},
+            {'op': 'fwd', 'lam': 0.5, 'dtype': 'c128', 'salt': 1}, {'op': 'setf', 'f': {'kind': 'callable', 'a': 1.0, 'b': 1.0}},
+            {'op': 'bwd', 'lam': 0.5, 'dtype': 'c128', 'salt': 2}, {'op': 'fwd', 'lam': 0.5, 'dtype': 'c128', 'salt': 3}]})
+        out.append({'case': case, 'style': 'precision', 'ops': [
+            {'op': 'fwd', 'lam': 0.5, 'dtype': 'c64', 'salt': 0}, {'op': 'fwd', 'lam': 0.5, 'dtype': 'c128', 'salt': 1},
+            {'op': 'bwd', 'lam': 0.5, 'dtype': 'c64', 'salt': 2}, {'op': 'bwd', 'lam': 0.5, 'dtype': 'c128', 'salt': 3},
+            {'op': 'fwd', 'lam': 0.5, 'dtype': 'c128', 'salt': 4}]})
+    return out
+
+
+def _focal_field(case, grid, salt, dtype):
+    import hcipy
+    rng = np.random.default_rng([case['fseed'], 1000 + salt])
+    ts = {'scalar': (), 'scalar-stokes': (), 'jones': (2,), 'matrix': (2, 2)}[case['wf']]
+    re = rng.integers(-8, 9, size=ts + (grid.size,)) / 4.0
+    im = rng.integers(-8, 9, size=ts + (grid.size,)) / 4.0
+    return hcipy.Field((re + 1j * im).astype(dtype), grid)
+
+
+def oracle_session(sess, observe=None):
+    """One FraunhoferPropagator object through the whole op sequence. Returns [(key, what)]."""
+    import hcipy
+    case = sess['case']
+    bad = []
+    pupil_grid = build_pupil(case)
+    focal_grid, exact = build_focal(case, pupil_grid)
+    if focal_grid.size == 0:
+        return bad
+
+    def as_arg(spec):
+        if spec['kind'] == 'callable':
+            a, b = spec['a'], spec['b']
+            return lambda wl: a + b * wl
+        return spec['a']
+    cur = case['f']
+    prop = hcipy.FraunhoferPropagator(pupil_grid, focal_grid, focal_length=as_arg(cur))
+    prev = 'fresh'
+    log = []
+    kcache = {}
+    for op in sess['ops']:
+        if op['op'] == 'setf':
+            cur = op['f']
+            prop.focal_length = as_arg(cur)
+            prev = prev + '>setf'
+            log.append(('setf', cur))
+            continue
+        lam = op['lam']
+        f = f_value(cur, lam)
+        d4 = d4_affected(pupil_grid, focal_grid, lam, f)
+        dtype = np.complex64 if op['dtype'] == 'c64' else np.complex128
+        tol = TOL64 if op['dtype'] == 'c64' else TOL
+        try:
+            if op['op'] == 'fwd':
+                fld = make_field(case, pupil_grid).astype(dtype) * dtype(1 + 0.25 * (op['salt'] % 3))
+                fld = hcipy.Field(np.asarray(fld).astype(dtype), pupil_grid)
+                wf = make_wavefront(case, fld, lam)
+                e_in = np.asarray(wf.electric_field).copy()
+                out = prop.forward(wf)
+                ref = direct_sum(pupil_grid, focal_grid, e_in, lam, f, kcache)
+                got = np.asarray(out.electric_field).reshape(-1, focal_grid.size)
+            else:
+                fld = _focal_field(case, focal_grid, op['salt'], dtype)
+                wf = make_wavefront(case, fld, lam)
+                e_in = np.asarray(wf.electric_field).copy()
+                out = prop.backward(wf)
+                ref = adjoint_sum(pupil_grid, focal_grid, e_in, lam, f, kcache)
+                got = np.asarray(out.electric_field).reshape(-1, pupil_grid.size)
+        except Exception as e:
+            if not d4:
+                bad.append(('reuse raises %s' % type(e).__name__, '%s raised %s: %s after %s' % (op['op'], type(e).__name__, e, prev)))
+            prev = prev + '>' + op['op']
+            continue
+        scale = max(1.0, float(np.abs(ref).max()))
+        err = float(np.abs(got - ref).max())
+        hist = prev.split('>')
+        last = hist[-1]
+        had64 = 'c64' in prev
+        if not err <= tol * scale and not d4:
+            key = 'reuse-%s after-%s%s' % ('forward' if op['op'] == 'fwd' else 'backward', last, '+earlier-c64' if had64 and op['dtype'] == 'c128' else '')
+            bad.append((key, '%s #%d on a reused propagator (history %s) differs from the %s sum for the current focal length by %.3g (scale %.3g, lam=%r f=%r, %s)'
+                        % (op['op'], len(log), prev, 'Fourier' if op['op'] == 'fwd' else 'adjoint Fourier', err, scale, lam, f, op['dtype'])))
+        if out.wavelength != lam:
+            bad.append(('wavelength-carried', 'reused propagator changed the wavelength'))
+        norm = None
+        if observe is not None:
+            norm = complex(prop.get_instance_data(pupil_grid, None, lam).norm_factor)
+        log.append((op['op'], lam, f, norm, d4))
+        prev = prev + '>' + op['op'] + ('(c64)' if op['dtype'] == 'c64' else '')
+    if observe is not None:
+        observe.update({'log': log, 'pupil_grid': pupil_grid, 'focal_grid': focal_grid})
+    return bad
+
+
+def session_requests(sess, obs):
+    p = sess['case']['pupil']
+
+    def spec(f):
+        return 'const %s' % rat(f['a']) if f['kind'] == 'const' else 'affine %s %s' % (rat(f['a']), rat(f['b']))
+    lines = ['C03 session %s [%d,%d] %s %s' % (rat_list(p['delta']), p['dims'][0], p['dims'][1], rat_list(p['zero']), spec(sess['case']['f']))]
+    plan = [None]
+    for item in obs.get('log', []):
+        if item[0] == 'setf':
+            lines.append('C03 setf ' + spec(item[1])); plan.append(None)
+        else:
+            lines.append('C03 at ' + rat(item[1])); plan.append(item)
+    return lines, plan
+
+
+def compare_session(ctx, sess, plan, answers):
+    for item, resp in zip(plan, answers):
+        if item is None:
+            if resp != 'ok':
+                raise MachineryError('model answered %r' % resp)
+            continue
+        ctx.traces_validated += 1
+        kv = _kv(resp)
+        re_, im_ = kv['norm'].split(':')
+        nf = complex(float(parse_rat(re_)), float(parse_rat(im_)))
+        got = item[3]
+        if not _close(nf.real, got.real) or not _close(nf.imag, got.imag) or not _close(float(parse_rat(kv['lamf'])), item[1] * item[2]):
+            ctx.disagree('C03 instance after reuse', {'session': sess, 'lam': item[1], 'impl_norm_factor': str(got), 'model': resp})
+
 # ---------------------------------------------------------------------------------------------
 
 def run(ctx):
@@ -542,6 +755,35 @@ def run(ctx):
         answers = ctx.model(all_lines)
         for (case, obs, plan), (a, k) in zip(kept, spans):
             compare_model(ctx, case, obs, plan, answers[a:a + k])
+        # reuse of one object
+        ns = ctx.scale(110, 1500)
+        sessions = directed_sessions() + [gen_session(ctx.rng, big=(ctx.tier == 'thorough' and k % 4 == 0)) for k in range(ns)]
+        s_lines, s_spans, s_kept = [], [], []
+        for sess in sessions:
+            obs = {}
+            bad = oracle_session(sess, observe=obs)
+            for key, what in bad:
+                ctx.violation(key, what, {'session': sess})
+            if 'log' not in obs:
+                ctx.count('skipped:empty-focal-grid')
+                continue
+            kinds = [o['op'] + ('64' if o.get('dtype') == 'c64' else '') for o in sess['ops']]
+            ctx.count('session:' + sess['style'])
+            ctx.count('session-ops', len(kinds))
+            for a, b in zip(kinds, kinds[1:]):
+                ctx.count('session-transition:%s>%s' % (a, b))
+            fg, pg = obs['focal_grid'], obs['pupil_grid']
+            if fg.is_regular and fg.is_('cartesian') and any(int(a) > int(b) for a, b in zip(fg.dims, pg.dims)) and sess['case']['focal']['kind'] == 'conj' \
+                    and any(sess['case']['focal']['crop']):
+                ctx.count('session:cropped-fft-grid-larger-than-pupil')
+            ctx.case(None, nontrivial_key=('session', sess['style'], tuple(kinds), tuple(sess['case']['pupil']['dims']), sess['case']['focal']['kind']))
+            lines, plan = session_requests(sess, obs)
+            s_spans.append((len(s_lines), len(lines)))
+            s_lines += lines
+            s_kept.append((sess, plan))
+        s_answers = ctx.model(s_lines)
+        for (sess, plan), (a, k) in zip(s_kept, s_spans):
+            compare_session(ctx, sess, plan, s_answers[a:a + k])
     if ctx.evaluations and ctx.boundary_skipped > 0.05 * max(1, ctx.traces_validated):
         raise MachineryError('more than 5%% of the comparisons were boundary-skipped (%d)' % ctx.boundary_skipped)
 
@@ -549,7 +791,7 @@ def run(ctx):
 def replay(ctx, case):
     with warnings.catch_warnings():
         warnings.simplefilter('ignore')
-        bad = oracle_case(case)
+        bad = oracle_session(case['session']) if 'session' in case else oracle_case(case)
     for key, what in bad:
         print('  fails:', key, '-', what)
     return not bad
